@@ -112,7 +112,7 @@ def rtOp (c : RtCtx) (σ0 : CState) (σ : CState) (op : String) : CState :=
   match splitOn op ':' with
   | ["start"] =>
     -- the driver refills the struct with 0xAA before every `start`
-    let (σ', code) := c.start { σ0 with log := σ.log }
+    let (σ', code) := c.start { σ0 with log := σ.log.push "begin" }
     { σ' with log := σ'.log.push s!"start {code} | {c.dump σ'}" }
   | ["feed", h] =>
     let chunk := unhex h
@@ -170,11 +170,22 @@ def cmdRt (args : List String) : String :=
     | .error e => s!"error parse {e}"
   | _ => "error bad-args"
 
+def cmdWf (args : List String) : String :=
+  match args with
+  | [opts, m] =>
+    match parseMachine m with
+    | .ok M =>
+      let c : RtCtx := { M := M, ro := parseRtOpts opts }
+      s!"leavesOK={M.leavesOK c.semOpts} states={M.states.size}"
+    | .error e => s!"error parse {e}"
+  | _ => "error bad-args"
+
 def handle (line : String) : String :=
   match splitBar line with
   | "equiv" :: args => cmdEquiv args
   | "tree" :: args => cmdTree args
   | "rt" :: args => cmdRt args
+  | "wf" :: args => cmdWf args
   | "ping" :: _ => "pong"
   | _ => "error unknown-command"
 
